@@ -20,16 +20,16 @@ def gen_lines(thorough):
         for na in ([3] if form == 'ilist' else range(0, maxn + 1)):
             cc = 2 * na if form == 'ilist' else na     # counted constructions of the creation (the initializer list holds copies)
             for t in range(-1, cc):
-                j.append('j %s %d 2 %d 1 %d none' % (form, 64 + na * 8, na, t))
+                j.append('j %s %d 2 %d 1 %d none' % (form, 64 + na * 24, na, t))
             for post in ('clone', 'move'):
                 for t in range(cc, cc + na):       # the failing construction is one of the copy / move constructions of the second object
-                    j.append('j %s %d 2 %d 1 %d %s' % (form, 64 + na * 8, na, t, post))
+                    j.append('j %s %d 2 %d 1 %d %s' % (form, 64 + na * 24, na, t, post))
     # a joint_array failing inside the object's constructor gives its joint memory back (allocator usable): form x length x failing index
     for form in ('size', 'value', 'range', 'ilist'):
         for n in ([3] if form == 'ilist' else range(1, min(maxn, 16) + 1)):
             cc = 2 * n if form == 'ilist' else n
             for t in range(0, cc):
-                j.append('r %s %d 0 %d 0 %d none' % (form, 64 + n * 8, n, t))
+                j.append('r %s %d 0 %d 0 %d none' % (form, 64 + n * 48, n, t))   # room for the member array (ilist form: three elements) and the retried one
     return u, j
 
 
